@@ -90,3 +90,20 @@ Qed.
 (* an opened reference that is never closed is refused, whatever follows (here: nothing) *)
 Example unclosed_refused : ref_syntax_ok [36;123;113] = false /\ ref_syntax_ok [36;123;113;32;125] = false /\ ref_syntax_ok [36;123;36;123;113;125;125] = false.
 Proof. vm_compute. repeat split. Qed.
+
+Theorem is_reference_wellformed name : ncname_plain name -> is_pyxform_reference ([36;123] ++ name ++ [125]) = true.
+Proof.
+  intros [c [rest [-> [Hc Hr]]]]. unfold is_pyxform_reference. cbn [app]. change (rest ++ [125]) with (rest ++ 125 :: []).
+  rewrite (ref_rule_name c rest [] Hc Hr). rewrite andb_true_r. apply Nat.ltb_lt. cbn [length]. rewrite app_length. cbn [length]. lia.
+Qed.
+(* anything after the closing brace (other than one final newline) makes the cell an expression, not a single reference *)
+Theorem is_reference_rejects_continuation name t : ncname_plain name -> t <> [] -> t <> [10] ->
+  is_pyxform_reference ([36;123] ++ name ++ [125] ++ t) = false.
+Proof.
+  intros [c [rest [-> [Hc Hr]]]] H1 H2. unfold is_pyxform_reference. cbn [app].
+  rewrite (ref_rule_name c rest t Hc Hr). apply andb_false_iff. right.
+  destruct t as [|x [|y t']]; [congruence| |].
+  - destruct (N.eq_dec x 10) as [->|Hx]; [congruence|].
+    destruct x as [|p]; [reflexivity|]. do 4 (destruct p; try reflexivity). congruence.
+  - destruct x as [|p]; [reflexivity|]. do 4 (destruct p; try reflexivity).
+Qed.
